@@ -129,6 +129,26 @@ def c03_cases(ctx):
         ctx.add("v_" + name, ops, kind="valid", stream=s, z=z, plain=p)
 
 
+def c03_bulk(ctx):
+    """implementation-only sweep: every directed stream under every single cut point, byte-wise feeding and small
+    chunkings, flat and ring and inflate(); the oracle needs one specification run per stream"""
+    rng = ctx.rng
+    for name, s, p in streams.directed_streams(rng):
+        L = len(p)
+        fl = 0
+        cuts = list(range(0, len(s) + 1)) if (len(s) <= 1300 or ctx.tier == "thorough") else sorted(set(rng.range(0, len(s)) for _ in range(60)))
+        scheds = ["%d:-,100000:-" % c for c in cuts] + ["1:-", "2:-", "3:-", "5:3", "1:1"]
+        ops = ["in %s" % hx(s)]
+        for i, sc in enumerate(scheds):
+            if i % 2 == 0:
+                ops.append("drive @ flat %d 0 %d %s" % (L + 1, fl | 4, sc))
+            else:
+                ops.append("drive @ ring 32768 0 %d %s" % (fl, sc))
+        ops += ["isnew 2", "isdrive @ 1:1:0", "isnew 2", "isdrive @ 1:100000:0", "isnew 2", "isdrive @ 100000:7:0",
+                "dvec 0 - @", "dslices 0 0 %d @ %s" % (L + 1, ",".join(str(c) for c in cuts[1:40:3]) or "-")]
+        ctx.add("b_" + name, ops, model=False, kind="valid", stream=s, z=False, plain=p)
+
+
 def c03_eval(ctx):
     fails = []
     orc = oracle_streams(ctx, [(c, ctx.meta[c]["z"], ctx.meta[c]["stream"]) for c, _ in ctx.cases if ctx.meta[c].get("kind") == "valid"])
@@ -176,6 +196,7 @@ def check_C03(rep, tier, seed, replay):
         load_replay_valid(ctx, replay)
     else:
         c03_cases(ctx)
+        c03_bulk(ctx)
     return standard_run(ctx, proof_ok, c03_eval, MODEL_INFLATE_OPS,
                         "grammar-generated valid streams (block mix, arbitrary complete code-length assignments to 15 bits, "
                         "HLIT/HDIST/HCLEN extremes, repeat codes crossing HLIT, len 258 / dist 32768, overlapping copies, empty stored "
@@ -352,6 +373,23 @@ def c05_cases(ctx):
             # the harness does not report back to us: advance by a guess (any history is legal for C05)
             off += rng.choice([0, nin, nin // 2])
         ctx.add("h%d" % i, ops, kind="hist", hist=hist, slen=len(s))
+    # every targeted invalid stream: fail once with generous buffers (errors inside the fast loop included),
+    # then call again - must keep failing with nothing consumed or written
+    for name, s in streams.targeted_invalid(rng):
+        for (L, flags) in ((70000, 4), (32768, 0), (65536, 2)):
+            ops = ["in %s" % hx(s), "buf %d 9" % L, "dcall @0:100000 0 - %d" % flags, "dcall @0:100000 0 - %d" % flags,
+                   "dcall @5:100000 1 - %d" % flags, "dcall - 0 3 %d" % flags]
+            ctx.add("f_%s_%d" % (name, L), ops, kind="hist", hist=[], slen=len(s))
+    # the fast loop's worst case: exactly k bytes of room left, literal + length-258 match next
+    for name, s, p in streams.directed_streams(rng):
+        if not name.startswith("fast_lit_258"):
+            continue
+        for room in range(250, 275):
+            for b0 in (0, 10, 40, 41, 100):
+                L = b0 + room
+                ops = ["in %s" % hx(s), "buf %d 9" % L, "dcall @0:100000 0 - 4", "dnew", "buf %d 9" % (L + 300), "dcall @0:100000 0 %d 4" % L,
+                       "dnew", "buf 1024 9", "dcall @0:100000 %d %d 0" % (b0, room)]
+                ctx.add("q_%s_%d_%d" % (name, room, b0), ops, model=(room % 6 == 0 and b0 == 10), kind="hist", hist=[], slen=len(s))
     # wrappers never panic either
     for i in range(40 if ctx.tier == "quick" else 400):
         s = rng.bytes(rng.range(0, 40)) if rng.chance(1, 2) else streams.mutate(rng, rng.choice(base)[1])[0]
@@ -392,8 +430,13 @@ def c05_eval(ctx):
                     failed = False
                 elif w[0] == "dcall":
                     f = parse_fields(line)
-                    off, nin = [int(x) for x in w[1][1:].split(":")]
-                    offered = max(0, min(off + nin, m["slen"]) - min(off, m["slen"]))
+                    if w[1] == "-":
+                        offered = 0
+                    elif w[1] == "@":
+                        offered = m["slen"]
+                    else:
+                        off, nin = [int(x) for x in w[1][1:].split(":")]
+                        offered = max(0, min(off + nin, m["slen"]) - min(off, m["slen"]))
                     pos = int(w[2])
                     mx = None if w[3] == "-" else int(w[3])
                     flags = int(w[4])
@@ -469,7 +512,8 @@ def c06_cases(ctx):
             else:
                 trail = rng.bytes(tl)
             st = s + trail
-            fl = 1 if z else 0
+            # raw streams also with COMPUTE_ADLER32 / IGNORE_ADLER32 / STOP_ON_BLOCK_BOUNDARY-free combinations
+            fl = 1 if z else rng.choice([0, 0, 8, 64, 72])
             near = max(0, len(s) - rng.range(0, 6))
             ops = ["in %s" % hx(st),
                    # (one spare output byte whenever input is chunked: upstream issue 110)
@@ -481,7 +525,10 @@ def c06_cases(ctx):
                    "ziinit %d" % (15 if z else -15),
                    "zcall inflate @ %d %d" % (len(p) + 10, rng.choice([0, 2, 4])),
                    "tinfl_new",
-                   "tinfl_call @ %d 0 %d" % (max(1, 1 << (len(p) + 1).bit_length()), fl | 4)]
+                   "tinfl_call @ %d 0 %d" % (max(1, 1 << (len(p) + 1).bit_length()), fl | 4),
+                   # output window filling within the last compressed bytes, then more calls (look-ahead carried over)
+                   "drive @ ring 32768 0 %d %s" % (fl, "%d:%d,100000:-" % (near, max(1, len(p) - rng.range(0, 3)))),
+                   "drive @ flat %d 0 %d 100000:%d,100000:-" % (len(p) + 1, fl | 4, max(1, len(p) - rng.range(0, 3)))]
             ctx.add("e%d" % k, ops, kind="eos", stream=s, z=z, full=st)
 
 
@@ -558,7 +605,7 @@ def check_C06(rep, tier, seed, replay):
 
 def c07_cases(ctx):
     rng = ctx.rng
-    n = 30 if ctx.tier == "quick" else 300
+    n = 10 if ctx.tier == "quick" else 300
     base = corpus(ctx, n, 150)
     k = 0
     for name, s, z, p in base:
@@ -597,6 +644,24 @@ def c07_cases(ctx):
             ctx.add("s%d" % k, ops, kind="same", mode="stream")
 
 
+def c07_bulk(ctx):
+    rng = ctx.rng
+    k = 0
+    pool = [(n, s, False, p) for n, s, p in streams.directed_streams(rng)]
+    pool += [(n, s, False, b"") for n, s in streams.targeted_invalid(rng)]
+    for name, s, z, p in pool:
+        if len(s) > 1300 and ctx.tier == "quick":
+            continue
+        k += 1
+        L = len(p) + 400
+        scheds = ["100000:-", "1:-", "2:-"] + ["%d:-,100000:-" % c for c in range(0, len(s) + 1)]
+        scheds += ["100000:%d" % b for b in (1, 2, 3, 4, 5, 7, 257, 258, 259, 260)] + ["1:1", "3:2"]
+        ops = ["in %s" % hx(s)] + ["drive @ flat %d 7 4 %s" % (L, sc) for sc in scheds]
+        ctx.add("bf%d" % k, ops, model=False, kind="same", mode="flat")
+        ops = ["in %s" % hx(s)] + ["drive @ ring 32768 7 0 %s" % sc for sc in scheds]
+        ctx.add("br%d" % k, ops, model=False, kind="same", mode="ring")
+
+
 def c07_eval(ctx):
     fails = []
     for cid, ops in ctx.cases:
@@ -631,6 +696,7 @@ def check_C07(rep, tier, seed, replay):
         load_replay(ctx, replay)
     else:
         c07_cases(ctx)
+        c07_bulk(ctx)
     return standard_run(ctx, proof_ok, c07_eval, MODEL_INFLATE_OPS,
                         "streams (valid and mutated) x {every single cut point for streams <= 64 bytes (pairs of cuts in thorough), "
                         "one-byte feeding, per-call budgets 1..5,7,257..260, random partitions} within flat / 32 KiB ring / inflate(); "
@@ -666,6 +732,27 @@ def c08_cases(ctx):
         rops = ["in %s" % hx(s), "drive @ ring 32768 165 %d 100000:%d" % (fl, rng.choice([1, 2, 3, 5, 259])),
                 "drive @ flat %d 165 %d 100000:%d,100000:%d" % (L + 2, fl | 4, rng.range(1, 7), rng.range(1, 300))]
         ctx.add("g%d" % k, rops, kind="drv", plain=p)
+
+
+def c08_bulk(ctx):
+    rng = ctx.rng
+    for name, s, p in streams.directed_streams(rng):
+        L = len(p)
+        if L > 1500 and ctx.tier == "quick":
+            continue
+        ops = ["in %s" % hx(s)]
+        step = 1 if L <= 700 else 3
+        for b in list(range(0, min(L, 700) + 2, step)) + [L - 2, L - 1, L, L + 1]:
+            if b < 0:
+                continue
+            pos = (b * 7) % 5
+            ops += ["dnew", "buf %d 165" % (L + 9), "dcall @ %d %d 4" % (pos, b)]
+        ctx.add("s_" + name, ops, model=False, kind="win", plain=p, pos_shift=True)
+        lim_ops = ["in %s" % hx(s)]
+        for lim in sorted(set([0, max(0, L - 1), L, L + 1])):
+            lim_ops.append("dvec 0 %d @" % lim)
+        lim_ops.append("dslices 0 0 %d @ -" % L)
+        ctx.add("sl_" + name, lim_ops, model=False, kind="limit", plain=p, z=False, stream=s)
 
 
 def c08_eval(ctx):
@@ -717,6 +804,9 @@ def c08_eval(ctx):
                             bad = "returned %s bytes for limit %d" % (f["len"], lim)
                         elif f.get("o") != core_show(m["plain"][:int(f["len"])]):
                             bad = "failed vector decode does not carry the decoded prefix"
+                elif w[0] == "dslices":
+                    if f["_"][:1] != ["ok"] or f.get("o") != core_show(m["plain"]):
+                        bad = "single slice into an output of exactly the true size did not succeed: %s" % line[:80]
                 elif w[0] == "drive":
                     if f.get("st") != "0" or f.get("o") != core_show(m["plain"]):
                         bad = "budget-limited driver loop did not produce the plaintext: %s" % str(f)[:100]
@@ -745,6 +835,7 @@ def check_C08(rep, tier, seed, replay):
             ctx.meta[cid].update(kind="win", plain=b"")
     else:
         c08_cases(ctx)
+        c08_bulk(ctx)
     return standard_run(ctx, proof_ok, c08_eval, MODEL_INFLATE_OPS,
                         "valid streams x (out_pos, per-call budget, slice length) grids around the true size and around match ends "
                         "(budgets 1..7, 258, 259, n-1..n-3), sentinel-filled buffers compared byte for byte outside the window; "
@@ -1007,8 +1098,8 @@ PROP_THEOREMS = {
     "C04": ["C04_bad_zlib_header_never_accepted", "C04_rejected_iff_rfc_invalid"],
     "C05": ["C05_bad_geometry_is_param_error", "C05_failure_is_absorbing", "C05_counts_within_bounds"],
     "C06": ["C06_undo_leaves_less_than_a_byte"],
-    "C07": ["C07_read_bits_resume"],
+    "C07": ["C07_read_bits_resume_partial"],
     "C08": ["C08_window_and_truthful_status", "C08_bad_geometry_untouched"],
     "C13": ["C13_full_flush_is_stream_error", "C13_errors_are_sticky", "C13_nonfinish_after_finish"],
-    "C19": ["C19_clone_is_identity"],
+    "C19": ["C19_boundary_record_roundtrip", "C19_no_record_elsewhere"],
 }
